@@ -275,8 +275,21 @@ def compile_prog(src):
         return None
 
 
+RETRIED = [0]
+
+
 def execute(code, prog, codes, R, C):
-    """Run one compiled program under one code assignment and flag setting on the real implementation."""
+    """Run one compiled program under one code assignment and flag setting on the real implementation.
+    A run that does not return within 30 s is repeated (twice at most): only a repeatable hang is reported."""
+    for attempt in range(3):
+        log, exc = _execute_once(code, prog, codes, R, C)
+        if exc is None or exc[0] != "HANG":
+            break
+        RETRIED[0] += 1
+    return log, exc
+
+
+def _execute_once(code, prog, codes, R, C):
     env = _XSH.env
     env["XONSH_SUBPROC_RAISE_ERROR"] = R
     env["XONSH_SUBPROC_CMD_RAISE_ERROR"] = C
@@ -413,14 +426,14 @@ def make_key(prog, codes, R, C, outs, log, exc, runner=None):
     op = prog["ops"][dev]
     forms = {o["form"] for o in prog["ops"]}
     lk = line_kind(prog)
-    if runner is not None and lk == "py" and _has_group(prog["tree"]) and "bare" in forms and forms & {"out", "obj"}:
-        # repair: write every bare operand in its explicit ![...] form (same meaning).  If the failure goes away
-        # the bare-name rewrite of a Python-parsable line with a parenthesised group next to $()/!() is at fault.
-        p2 = dict(prog, ops=[dict(o, form="hid") if o["form"] == "bare" else dict(o) for o in prog["ops"]])
+    if runner is not None and _has_group(prog["tree"]) and forms & {"bare", "inj"} and forms & {"out", "obj"}:
+        # repair: write every bare operand in its explicit ![...] form (same meaning).  If the failure goes away,
+        # the rewrite of bare commands on a line that has a parenthesised group next to $()/!() is at fault.
+        p2 = dict(prog, ops=[dict(o, wrap=True) if o["form"] in ("bare", "inj") else dict(o) for o in prog["ops"]])
         s2 = _rerun(p2, codes, R, C, runner)
         if s2 == "ok" or (s2 is not None and s2[:3] != (clause, flags, sig)):
             kind = exc[0] if clause == "exception-class" else "wrong-commands-run"
-            return f"bare-name-rewrite:py-line+paren-group+$()/!():{kind}", "a command runs iff short-circuit evaluation reaches it"
+            return f"bare-rewrite:paren-group+$()/!():{kind}", "a command runs iff short-circuit evaluation reaches it"
     pipe = op["pipe"]
     if pipe and runner is not None:
         # repair: is the pipeline part of the failure?  Replace it by its last stage alone.
@@ -469,8 +482,12 @@ def _eval_item(item):
         code = compile_prog(src)
         if code is None:
             res["rejected"] = 1
+            if not _has_group(prog["tree"]) and _ndev(ops, _base_op(b["stmt"], ops[0][2])) == 0:
+                # vacuity guard: a flat chain of base-form operands is what the docs show; it must parse
+                res["viols"].append(_rejected_violation(prog, src, "exec"))
             return res
         seen = set()
+        r0 = RETRIED[0]
         for R, C in FLAGS:
             for codes, outs in ref.assignments(prog, R, C, b["codes"]):
                 log, exc = execute(code, prog, codes, R, C)
@@ -495,7 +512,19 @@ def _eval_item(item):
                         "note": err.getvalue()[-300:],
                     }
                 )
+    res["retried"] = RETRIED[0] - r0
     return res
+
+
+def _rejected_violation(prog, src, seam):
+    return {
+        "key": f"rejected:flat-base-chain:{prog['stmt']}:{prog['ops'][0]['form']}/{prog['ops'][0]['text']}",
+        "clause": "documented chain forms are accepted by the grammar",
+        "case": {"seam": seam, "threaded": False, "program": src, "prog": prog, "codes": {}, "flags": [True, False], "mode": "c"},
+        "observed": "SyntaxError",
+        "expected": "parses",
+        "note": "",
+    }
 
 
 # ------------------------------------------------------------------------------------------- process level
@@ -650,6 +679,13 @@ def _ok_status(prog, codes, o):
 def _proc_item(arg):
     idx, case = arg
     body = case["body"] if case["kind"] == "exit" else ref.render(case["prog"])
+    with contextlib.redirect_stderr(io.StringIO()):
+        admitted = compile_prog(body) is not None
+    if not admitted:
+        out = {"viol": None, "obs": "rejected by the grammar", "body": body, "rejected": 1}
+        if case["kind"] == "exit" or not _has_group(case["prog"]["tree"]):
+            out["viol"] = _rejected_violation(case.get("prog") or {"stmt": "exit", "ops": [{"form": "bare", "text": "words"}]}, body, "process")
+        return out
     log, status, errtxt = run_process(_PDIR, idx, case["mode"], body, case["codes"], *case["flags"])
     v = _proc_verdict(case, log, status)
     out = {"viol": None, "obs": {"log": log, "status": status}, "body": body}
@@ -688,17 +724,19 @@ def run(ctx):
     rejected = sum(r["rejected"] for r in res)
     skipped = sum(r.get("skipped", 0) for r in res)
     forks = sum(r["forks"] for r in res)
+    retried = sum(r.get("retried", 0) for r in res)
     for r in res:
         ctx.add_violations(r["viols"])
     ctx.log(f"in-process: {evals} executions, {rejected} texts rejected by the grammar, {sum(len(r['viols']) for r in res)} violating (text,key) pairs")
 
     _PDIR = _proc_setup()
     pcs = proc_cases(ctx.thorough)
-    pres = common.pmap(_proc_item, list(enumerate(pcs)), ctx.jobs, chunk=1, seed=ctx.seed)
+    pres = common.pmap(_proc_item, list(enumerate(pcs)), ctx.jobs, chunk=1, init=_init_worker, seed=ctx.seed)
     for r in pres:
         if r["viol"]:
             ctx.add_violations([r["viol"]])
-    ctx.log(f"process level: {len(pcs)} runs, {sum(1 for r in pres if r['viol'])} violating")
+    prej = sum(r.get("rejected", 0) for r in pres)
+    ctx.log(f"process level: {len(pcs) - prej} runs (+{prej} texts rejected by the grammar), {sum(1 for r in pres if r['viol'])} violating")
 
     for it in common.pick_samples([it for it in items if it[1] >= 2], ctx.seed, 5):
         b = _BLOCKS[it[0]]
@@ -708,7 +746,7 @@ def run(ctx):
     for r, c in list(zip(pres, pcs))[:: max(1, len(pcs) // 3)][:3]:
         ctx.sample({"process": c["mode"], "program": r["body"], "codes": c["codes"], "flags": c["flags"], "observed": r["obs"]})
     ctx.coverage.update(
-        evaluations=evals + len(pcs),
+        evaluations=evals + len(pcs) - prej,
         distinct_nontrivial=nontrivial,
         rule=(
             "every chain tree with <= n operands over && || and or (flat = Python precedence, nested = parenthesised) x every operand "
@@ -724,7 +762,9 @@ def run(ctx):
         rejected_by_grammar=rejected,
         skipped_async_obj=skipped,
         executions_with_forked_reference=forks,
-        process_runs=len(pcs),
+        process_runs=len(pcs) - prej,
+        process_texts_rejected_by_grammar=prej,
+        runs_repeated_after_30s_timeout=retried,
     )
     ctx.assumptions += [
         "callable aliases returning an int stand for commands with that exit status (real /bin/sh children only at process level)",
